@@ -34,7 +34,7 @@ def e1_conds(tier: str) -> List[Cond]:
             conds.append(Cond(oid=f"chem-roundtrip/first={H.PALETTE[e0]}/n=2/second={lo}-{hi - 1}", clause="write_chem_formula -> parse_chem_formula = the composition with zero counts dropped (plain/Hill order, all separators)",
                               module="vf.h.c15", func="o_chem_roundtrip", shape=dict(n=2, e0=e0, dec=False),
                               sym=[("sepi", "int"), ("hill", "bool"), ("c0", "int"), ("e1", "int"), ("c1", "int")],
-                              pre=["0 <= sepi <= 2", "c0 in (-2, 0, 1)" if q else f"{cr[0]} <= c0 <= {cr[1]}", f"{lo} <= e1 < {hi}", "c1 in (-1, 2)" if q else "c1 in (-1, 0, 2, 11)"],
+                              pre=["0 <= sepi <= 2", "c0 in (-2, 0, 1)" if q else "c0 in (-3, 0, 1, 6)", f"{lo} <= e1 < {hi}", "c1 in (-1, 2)" if q else "c1 in (-1, 0, 11)"],
                               timeout=t, functions=FUNCS[:6], bounds=f"first element fixed, second from palette[{lo}:{hi}], integer counts, all separators and orders"))
         if not q or e0 % 2 == 0:
             lo = (e0 * 5) % P
